@@ -10,7 +10,7 @@ usage: tools/confirm_seed.py <incoming_dir> <Cxx> [--tier quick]
 import json, os, re, shutil, subprocess, sys, tempfile
 import xml.etree.ElementTree as ET
 
-inc, prop = sys.argv[1].rstrip('/'), sys.argv[2]
+inc, prop = os.path.abspath(sys.argv[1].rstrip('/')), sys.argv[2]
 tier = sys.argv[sys.argv.index('--tier') + 1] if '--tier' in sys.argv else 'quick'
 name = os.path.basename(inc)
 base = json.load(open('/root/.vp/BASELINE.json'))
@@ -47,7 +47,10 @@ try:
         nodeid = '%s.py::%s::%s' % (mod.replace('.', '/'), c, fn)
         okk = False
         for _ in range(2):
-            r, o = sh('/venv/bin/python -m pytest -q -p no:cacheprovider --timeout=900 "%s"' % nodeid, cwd=wt)
+            try:
+                r, o = sh('/venv/bin/python -m pytest -q -p no:cacheprovider --timeout=200 "%s"' % nodeid, cwd=wt, timeout=300)
+            except subprocess.TimeoutExpired:
+                r = 1
             if r == 0:
                 okk = True
                 break
@@ -77,9 +80,11 @@ try:
         dst = os.path.join('/verif/seeded', name)
         os.makedirs(dst, exist_ok=True)
         for f in ('patch.diff', 'demo.py'):
-            shutil.copy(os.path.join(inc, f), dst)
+            if os.path.realpath(os.path.join(inc, f)) != os.path.realpath(os.path.join(dst, f)):
+                shutil.copy(os.path.join(inc, f), dst)
         meta = json.load(open(os.path.join(inc, 'meta.json')))
-        meta['agent_ran'] = meta.pop('ran', None)
+        if 'ran' in meta:
+            meta['agent_ran'] = meta.pop('ran')
         meta['confirmed_by_integrator'] = ran
         meta['base_commit'] = subprocess.check_output(['git', '-C', '/repo', 'rev-parse', '--short', 'HEAD'], text=True).strip()
         meta['detected'] = rc2 == 1
